@@ -415,6 +415,13 @@ func (g *G) Value(t cadence.Type, d int) cadence.Value {
 		}
 		return cadence.NewOptional(g.Value(t.Type, d-1))
 	case *cadence.VariableSizedArrayType:
+		// covariance: a position of type [Abstract] may hold an array whose own type is
+		// [Concrete] (let x: [Int] = [1]; let y: [[AnyStruct]] = [x])
+		if isOneOf(t.ElementType, AbstractTypes) && g.chance(1, 8) {
+			if c := g.Concretize(t.ElementType, d-1); c != nil && c != t.ElementType {
+				t = cadence.NewVariableSizedArrayType(c)
+			}
+		}
 		n := 0
 		if d > 0 {
 			n = g.weighted(1, 3, 4, 2)
@@ -431,6 +438,11 @@ func (g *G) Value(t cadence.Type, d int) cadence.Value {
 		}
 		return cadence.NewArray(vs).WithType(t)
 	case *cadence.DictionaryType:
+		if isOneOf(t.ElementType, AbstractTypes) && g.chance(1, 8) {
+			if c := g.Concretize(t.ElementType, d-1); c != nil && c != t.ElementType {
+				t = cadence.NewDictionaryType(t.KeyType, c)
+			}
+		}
 		n := 0
 		if d > 0 {
 			n = g.weighted(1, 2, 4, 3, 1)
